@@ -78,7 +78,7 @@ func (c *Ctx) dumpState() {
 	}
 	st.Viol = c.childViol
 	b, _ := json.Marshal(st)
-	fmt.Printf("\nSTATE:%s\n", b)
+	fmt.Fprintf(realStdout, "\nSTATE:%s\n", b)
 }
 
 // runSharded runs shardFns[name] in nshards child processes (at most `par`
